@@ -147,7 +147,7 @@ __start__:
         {
             c = ctx.GSTUFF_STUB;
         }
-        else if (ctx.GSTUFF_START) 
+        else if (c == ctx.GSTUFF_START) 
         {
             reset();
             goto __force_restart__;
